@@ -151,9 +151,10 @@ def run(ctx):
                "the array order after every call, so a different standard library would show as a divergence, not pass silently")
     ctx.assume("start(awaitable): virtual time -- clock_gettime(CLOCK_REALTIME) and pthread_cond_timedwait are interposed in the "
                "replayer; running coroutines take no time; nobody notifies the condition variable (single thread)")
-    ctx.assume("thread / thread-pool mode (worker thread, stop callback notify, lost wake-up 9.5d) is not covered by this check")
     # (c) thread mode: the scheduler's own worker thread against a client thread (lock grain + the worker's clock
     # read), virtual time, incl. destruction racing with the worker's loop
     from checks import c12thread
     c12thread.thread_mode(ctx)
-
+    # (d) thread-pool mode: worker_coro<true> travelling through a real thread_pool (two mutexes, nested acquisitions)
+    from checks import c12pool
+    c12pool.pool_mode(ctx)
